@@ -73,6 +73,10 @@ class Unsupported(Exception):
     """The engine cannot model an operation (harness error, never a verdict)."""
 
 
+class NaNProduced(Exception):
+    """the code under test computed inf - inf / 0 * inf on this path (IEEE: NaN)"""
+
+
 def zr(x):
     if isinstance(x, z3.ExprRef):
         return x
@@ -597,7 +601,7 @@ class SR:
         elif isinstance(v, (float, np.floating)):
             v = float(v)
             if v != v:
-                raise Unsupported('NaN entered a symbolic expression')
+                raise NaNProduced('NaN produced (inf - inf or 0 * inf)')
             v = Fraction(v) if abs(v) != float('inf') else v
         elif isinstance(v, SC):
             raise TypeError('complex to real')
@@ -664,7 +668,7 @@ class SR:
             o = o._as_real()
         if _is_zero(o) or _is_zero(self):
             if (isinstance(o, SR) and o.is_inf) or self.is_inf:
-                raise Unsupported('0 * inf')
+                raise NaNProduced('0 * inf')
             return SR(Fraction(0))
         if _is_one(o):
             return self
